@@ -100,6 +100,8 @@ def run_all(ctx, focus):
     jobs = []
     for k, d in enumerate(descs):
         slow = ["nowhere"] if "dead-end" in d["classes"] else []
+        if "deploy-lag" in d["classes"]:
+            slow = ["__deploy__"]
         for sd in range(seeds):
             jobs.append((d, ctx.seed * 1000 + sd, slow, k))
     with ProcessPoolExecutor(max_workers=min(12, os.cpu_count() or 4)) as ex:
@@ -164,8 +166,12 @@ def judge(ctx, focus, d, exp, r, tr, v, pb, dead):
         if fails and not r.get("error"):
             ctx.violation("failure-not-raised:%s" % cls, detail, "%s has a failing job but the executor returned" % name)
         if not fails and r.get("error"):
-            if dead:
-                ctx.violation(KNOWN_DEADEND, detail, "executor raised on %s although nothing failed" % name)
+            # which steps did close() cancel?  (kinds of the model-level steps whose real status is CANCELLED)
+            m0 = dt.expand(d)
+            kinds = sorted({s0["kind"] for s0 in m0["steps"] if steps.get(s0["real"], {}).get("status") == "cancelled"})
+            if kinds:
+                ctx.violation("spurious-raise:close-cancels:%s:%s" % ("dead-end" if dead else "lagging", "+".join(kinds)), dict(detail, cancelled=kinds),
+                              "executor raised on %s although nothing failed: close() cancelled running %s step(s)" % (name, "+".join(kinds)))
             else:
                 ctx.violation("spurious-raise:%s" % cls, dict(detail, error=r["error"]),
                               "executor raised %s on %s although nothing failed" % (r["error"], name))
@@ -234,7 +240,7 @@ def replay(ctx, data, focus):
     if not d:
         return run_all(ctx, focus)
     seed = data["detail"].get("seed", 0)
-    slow = ["nowhere"] if "dead-end" in d.get("classes", []) else []
+    slow = ["nowhere"] if "dead-end" in d.get("classes", []) else (["__deploy__"] if "deploy-lag" in d.get("classes", []) else [])
     r = _worker((d, seed, slow))
     ctx.require("harness_error" not in r, str(r.get("harness_error")))
     tr, pb = dt.to_trace(d, r)
